@@ -274,6 +274,27 @@ class BaseSQLURLTable(BaseURLTable):
             session.execute(query)
 
 
+def _create_tables(engine):
+    '''Create the tables and indexes that do not exist yet.
+
+    ``create_all()`` skips a table that exists together with its indexes.
+    A run that was killed between ``CREATE TABLE`` and ``CREATE INDEX``
+    leaves the table without its unique index (URLs are then queued again
+    and again), so missing indexes are created here.
+    '''
+    DBBase.metadata.create_all(engine)
+
+    inspector = sqlalchemy.inspect(engine)
+
+    for table in DBBase.metadata.tables.values():
+        index_names = set(
+            info['name'] for info in inspector.get_indexes(table.name))
+
+        for index in table.indexes:
+            if index.name not in index_names:
+                index.create(engine)
+
+
 class SQLiteURLTable(BaseSQLURLTable):
     '''URL table with SQLite storage.
 
@@ -291,7 +312,7 @@ class SQLiteURLTable(BaseSQLURLTable):
             'sqlite:///{0}'.format(escaped_path), poolclass=SingletonThreadPool)
         sqlalchemy.event.listen(
             self._engine, 'connect', self._apply_pragmas_callback)
-        DBBase.metadata.create_all(self._engine)
+        _create_tables(self._engine)
         self._session_maker_instance = sessionmaker(bind=self._engine)
 
     @classmethod
@@ -321,7 +342,7 @@ class GenericSQLURLTable(BaseSQLURLTable):
     def __init__(self, url):
         super().__init__()
         self._engine = create_engine(url)
-        DBBase.metadata.create_all(self._engine)
+        _create_tables(self._engine)
         self._session_maker_instance = sessionmaker(bind=self._engine)
 
     @property
